@@ -204,56 +204,39 @@ def run(check, an: Analysis):
     # ---- C ------------------------------------------------------------------
     c08._check_trigger_coverage(check, an, c08.condition_classes(an))
     # ---- R ------------------------------------------------------------------
-    run_fn = an.fn('usim.run')
-    roots = [fn for fn in an.p.functions.values() if fn.parent is run_fn
-             and fn.kind == 'coroutine']
+    from . import _run
+    run_fn, acts, rps = _run.run_paths(an)
+    roots = {}
+    for rp in rps:
+        if rp.initial == 'root':
+            roots[rp.root_fn.qn] = rp
     ok_root = False
     detail = 'root coroutine not found'
     if len(roots) == 1:
-        root = roots[0]
-        withs = [n for n in ast.walk(root.node) if isinstance(n, ast.AsyncWith)]
-        if len(withs) == 1 and len(root.node.body) == 1 and root.node.body[0] is withs[0]:
-            item = withs[0].items[0]
-            ctx = item.context_expr
-            till_name = _default_source(root, run_fn, 'till')
-            acts_name = _default_source(root, run_fn, 'activities')
-            cond_ok = isinstance(ctx, ast.Call) and ast.unparse(ctx.func) == 'until' and \
-                len(ctx.args) == 1 and isinstance(ctx.args[0], ast.Compare) and \
-                ast.unparse(ctx.args[0].left) == 'time' and \
-                isinstance(ctx.args[0].ops[0], ast.Eq) and \
-                ast.unparse(ctx.args[0].comparators[0]) == till_name
-            loops = [n for n in withs[0].body if isinstance(n, ast.For)]
-            scope_name = ast.unparse(item.optional_vars) if item.optional_vars else None
-            loop_ok = len(loops) == 1 and len(withs[0].body) == 1 and \
-                ast.unparse(loops[0].iter) == acts_name and len(loops[0].body) == 1 and \
-                ast.unparse(loops[0].body[0]) == '%s.do(%s)' % (
-                    scope_name, ast.unparse(loops[0].target))
-            ok_root = cond_ok and loop_ok and till_name is not None and acts_name is not None
-            detail = 'until(time == till): %s; every activity started in order: %s' % (
-                cond_ok, loop_ok)
+        rp = next(iter(roots.values()))
+        cond_ok, loop_ok, n_paths = _run.root_shape(an, rp.root_fn, rp.bound, acts)
+        ok_root = cond_ok and loop_ok
+        detail = 'until(time == till): %s; every activity started in order: %s ' \
+                 '(%d paths of %s, parameters %s)' % (cond_ok, loop_ok, n_paths,
+                                                      short(rp.root_fn.qn), rp.bound)
     check.instance('R', 'run:root-shape', ok_root, where_fn(run_fn), detail)
-    callee = Callee(run_fn, None)
     seen = set()
-    for path in an.paths(callee):
-        if not path.normal:
+    for rp in rps:
+        if rp.limited is None:
             continue
-        tills = [e for e in path.events if e.kind == 'test'
-                 and e.get('key') == ('isnone', 'till')]
-        wrapped = any(e.kind == 'store' and e['path'] == 'activities' for e in path.events)
-        if tills:
-            limited = not key_truth(tills[0])
-            seen.add(limited)
-            check.instance('R', 'run:till=%s' % ('given' if limited else 'None'),
-                           wrapped == limited, where_fn(run_fn),
-                           'activities are wrapped into the single root iff a `till` is '
-                           'given', path=rules.path_lines(path))
+        seen.add(rp.limited)
+        wrapped = rp.initial == 'root'
+        plain = rp.initial == 'activities'
+        check.instance('R', 'run:till=%s' % ('given' if rp.limited else 'None'),
+                       (wrapped if rp.limited else plain) and len(rp.loops) == 1,
+                       where_fn(run_fn),
+                       'the loop receives the single root activity iff a `till` is given, '
+                       'the activities themselves otherwise (here: %s)' % rp.initial,
+                       path=rules.path_lines(rp.path))
     check.instance('R', 'run:both-cases', seen == {True, False}, where_fn(run_fn),
                    'run distinguishes till given / not given')
-    stores = [n for n in ast.walk(run_fn.node) if isinstance(n, ast.Assign)
-              and ast.unparse(n.targets[0]) == 'activities']
-    ok = len(stores) == 1 and isinstance(stores[0].value, ast.Tuple) and \
-        len(stores[0].value.elts) == 1 and isinstance(stores[0].value.elts[0], ast.Call) and \
-        ast.unparse(stores[0].value.elts[0].func) == (roots[0].name if roots else '?')
+    ok = bool(rps) and all(len(rp.loops) == 1 and rp.initial in ('root', 'activities')
+                           for rp in rps) and len(roots) == 1
     check.instance('R', 'run:single-root', ok, where_fn(run_fn),
                    'the loop receives exactly the one root activity')
     check.stats.update(an.stats())
